@@ -93,7 +93,13 @@ func (c11) Gen(seed uint64, tier string) *Scenario {
 					prefix += "\nCOMMIT;"
 				}
 			}
-			switch r.Intn(8) {
+			switch r.Intn(11) {
+			case 8:
+				extra = fmt.Sprintf("UPDATE %s SET n = n + 7;\nIF TRUE THEN WHILE TRUE DO EXIT 4; END WHILE; END IF;", tableName(r.Intn(ntab)))
+			case 9:
+				extra = fmt.Sprintf("DECLARE ferr FUNCTION (@a) AS BEGIN IF @a > 0 THEN TRIGGER ERROR 9 'in function'; END IF; RETURN @a; END;\nCREATE TABLE e%d (a);\nUPDATE %s SET n = ferr(id);", p, tableName(r.Intn(ntab)))
+			case 10:
+				extra = fmt.Sprintf("CREATE TABLE g%d (a, b);\nINSERT INTO g%d VALUES (1, 2);\nCOMMIT;\nINSERT INTO g%d VALUES (3, 4);\nSELECT * FROM no_such_table;", p, p, p)
 			case 0:
 				extra = "SELECT id FROM no_such_table;"
 			case 1:
@@ -108,7 +114,13 @@ func (c11) Gen(seed uint64, tier string) *Scenario {
 				extra = fmt.Sprintf("INSERT INTO %s VALUES (1, 2, 3);", tableName(r.Intn(ntab)))
 			}
 		} else {
-			switch r.Intn(4) {
+			switch r.Intn(7) {
+			case 4:
+				extra = fmt.Sprintf("SELECT a.id, b.n FROM %s a JOIN `%s.csv` b ON a.id = b.id;\nSELECT x.id FROM %s x WHERE x.id IN (SELECT id FROM %s);", tableName(0), tableName(0), tableName(0), tableName(0))
+			case 5:
+				extra = fmt.Sprintf("DECLARE cur CURSOR FOR SELECT id FROM %s; OPEN cur; VAR @c; FETCH cur INTO @c; CLOSE cur;\nSELECT COUNT(*) FROM %s FOR UPDATE;", tableName(0), tableName(0))
+			case 6:
+				extra = fmt.Sprintf("DECLARE tv VIEW AS SELECT id, n FROM %s;\nUPDATE tv SET n = n + 1;\nSELECT * FROM tv;\nCOMMIT;", tableName(0))
 			case 0:
 				extra = fmt.Sprintf("SELECT a.id, b.n FROM %s a JOIN %s b ON a.id = b.id;", tableName(0), tableName(ntab-1))
 			case 1:
@@ -120,7 +132,11 @@ func (c11) Gen(seed uint64, tier string) *Scenario {
 		m.Prefixes = append(m.Prefixes, prefix)
 		m.Extras = append(m.Extras, extra)
 		w := wtChoices[r.Intn(len(wtChoices))]
-		sc.Procs = append(sc.Procs, ProcSpec{CPU: r.Pick(1, 1, 1, 2, 4), WaitTimeoutS: w.wt + float64(137*(p+1))*1e-9, RetryDelayNs: w.retry + int64(1009*(p+1)+2*p*p), Format: "CSV", Quiet: true})
+		outFile := ""
+		if r.Bool(0.15) {
+			outFile = fmt.Sprintf("out%d.txt", p)
+		}
+		sc.Procs = append(sc.Procs, ProcSpec{OutFile: outFile, CPU: r.Pick(1, 1, 1, 2, 4), WaitTimeoutS: w.wt + float64(137*(p+1))*1e-9, RetryDelayNs: w.retry + int64(1009*(p+1)+2*p*p), Format: "CSV", Quiet: true})
 	}
 	renderC11(sc, m)
 	sc.Knobs = Knobs{RowStride: r.Pick(1, 2, 8), Pool: "lifo", MinPerCore: r.Pick(0, 5, 10)}
